@@ -78,6 +78,28 @@ Definition tuple_responses (cmds : list anyc) (frames : list frame) : typed_resu
        end) picked frames
   end.
 
+(* Client::command_list: what the typed list puts on the wire.  An empty Vec sends nothing
+   (command_list() = None) and its result is the empty vector. *)
+Inductive list_start := LSNothing | LSRequest (bs : bytes) | LSPanic.
+
+Fixpoint all_lines (cmds : list anyc) : option (list bytes) :=
+  match cmds with
+  | [] => Some []
+  | c :: r => match any_line c, all_lines r with
+              | Some l, Some ls => Some (l :: ls)
+              | _, _ => None
+              end
+  end.
+
+Definition typed_list_start (cmds : list anyc) : list_start :=
+  match cmds with
+  | [] => LSNothing
+  | _ => match all_lines cmds with
+         | Some ls => LSRequest (render_list ls)
+         | None => LSPanic
+         end
+  end.
+
 (* ---------- Client::album_art ---------- *)
 
 Inductive art_phase := ATryEmbedded | ATryFile | ALoop (embedded : bool).
